@@ -295,23 +295,35 @@ Definition remove_met_nd (m : Z) (s : st) : st :=
 Definition orphaned (s : st) (r : Z) (m : Z) : bool :=
   negb (isz (sto s r m)) && back s m r && min s m &&
   forallb (fun r' => (r' =? r) || negb (back s m r')) (rids s).
+(* undo closures registered while removing reaction r, oldest first *)
+Definition removal_records (s : st) (r : Z) (orphans : bool) : list undo :=
+  (if negb (isz (oc s (F r))) then [UObjCoefs r (oc s (F r))] else []) ++
+  [UPopulate r; URxnIn r; USolverAddVars r] ++
+  flat_map (fun m => UBackAdd m r :: (if orphans && orphaned s r m then [USolverAddCons m; UMetsIAdd m] else []))
+           (filter (fun m => back s m r) (mets_of s r)).
 Definition remove_rxn (r : Z) (orphans : bool) (s : st) : st :=
   if negb (rin s r) then s else
-  let c := oc s (F r) in
-  let s1 := if negb (isz c) then record (UObjCoefs r c) s else s in
-  let s2 := record (URxnIn r) (record (UPopulate r) s1) in
-  let s3 := record (USolverAddVars r) (solver_remove_var (R r) (solver_remove_var (F r) s2)) in
-  let s4 := set_rin s3 (upd (rin s3) r false) in
-  let ms := filter (fun m => back s m r) (mets_of s r) in
-  let s5 := set_back s4 (fun m r' => if (r' =? r) && negb (isz (sto s r m)) then false else back s4 m r') in
-  fold_left (fun a m => let a1 := record (UBackAdd m r) a in
-                        if orphans && orphaned s r m then drop_met m a1 else a1) ms s5.
+  let gone := fun m => orphans && orphaned s r m in
+  let s1 := set_rin s (upd (rin s) r false) in
+  let s2 := set_vin s1 (fun n => if (fst n =? r) then false else vin s n) in
+  let s3 := set_co s2 (fun m n => if (fst n =? r) || gone m then q0 else co s m n) in
+  let s4 := set_oc s3 (fun n => if (fst n =? r) then q0 else oc s n) in
+  let s5 := set_back s4 (fun m r' => if (r' =? r) && negb (isz (sto s r m)) then false else back s m r') in
+  let s6 := set_min s5 (fun m => min s m && negb (gone m)) in
+  let s7 := set_cin s6 (fun m => cin s m && negb (gone m)) in
+  record_all (removal_records s r orphans) s7.
 
 (* Model.remove_metabolites([m], destructive=True): every reaction that lists m leaves the model *)
 Definition remove_met_d (m : Z) (s : st) : st :=
   if negb (min s m) then s else
-  let s1 := fold_left (fun a r => remove_rxn r false a) (rxns_of s m) s in
-  drop_met m s1.
+  let dead := fun r => back s m r && rin s r in
+  let s1 := set_rin s (fun r => rin s r && negb (dead r)) in
+  let s2 := set_vin s1 (fun n => vin s n && negb (dead (fst n))) in
+  let s3 := set_co s2 (fun m' n => if dead (fst n) then q0 else co s m' n) in
+  let s4 := set_oc s3 (fun n => if dead (fst n) then q0 else oc s n) in
+  let s5 := set_back s4 (fun m' r => if dead r && negb (isz (sto s r m')) then false else back s m' r) in
+  let s6 := record_all (flat_map (fun r => removal_records s r false) (filter (rin s) (rxns_of s m))) s5 in
+  drop_met m s6.
 
 (* Reaction.__imul__(c) *)
 Definition imul (r : Z) (c : Qc) (s : st) : st :=
@@ -383,7 +395,7 @@ Definition step (s : st) (o : op) : st * res :=
       let s0 := note_ids [r] (map fst st0) s in
       let s1 := set_lbub s0 (upd (lb s0) r l) (upd (ub s0) r u) in
       (set_sto s1 (upd (sto s1) r (fun m => fold_left (fun a mc => if fst mc =? m then snd mc else a) st0 q0)), Ok)
-  | AddRxn r => (add_rxn r s, Ok)
+  | AddRxn r => (add_rxn r (note_ids [r] [] s), Ok)
   | RemoveRxn r orphans => (remove_rxn r orphans s, Ok)
   | AddMet m => let s0 := note_ids [] [m] s in
       if min s0 m then (s0, Ok) else
